@@ -49,7 +49,7 @@ func c16Universe(slots []slot, thorough bool) (*ExecUniverse, []slot) {
 	// string spellings: the decimal text of every number, and irregular ones
 	texts := []string{"NaN", "nan", "inf", "-inf", "Infinity", " 1", "1 ", "1e2", "1E2", "1.5e1", ".5", "5.", "-.5", "+1", "--1", "", "abc", "1.5", "-1.5",
 		"2147483647", "2147483648", "-2147483648", "-2147483649", "9223372036854775807", "9223372036854775808", "-9223372036854775808", "-9223372036854775809",
-		"1e400", "-1e400", "1e-400", "0", "-0", "00", "1", "t", "T", "true", "TRUE", "True", "f", "false", "FALSE", "y", "yes", "YES", "n", "no", "on", "ON", "off", "OFF", "o", "x", "2", "10"}
+		"1e400", "-1e400", "1e-400", "0", "-0", "00", "010", "0017", "08", "-0019", "0x10", "0b1", "0o7", "1_000", "+010", "1", "t", "T", "true", "TRUE", "True", "f", "false", "FALSE", "y", "yes", "YES", "n", "no", "on", "ON", "off", "OFF", "o", "x", "2", "10"}
 	seen := map[string]bool{}
 	for _, t := range texts {
 		seen[t] = true
@@ -82,6 +82,23 @@ func c16Universe(slots []slot, thorough bool) (*ExecUniverse, []slot) {
 			}
 		}
 		u.addCase(wire.Path{Lax: true, Chain: append(append([]wire.Node{}, head...), decimalNode(0, 0, 0))}, wire.Null(), vars)
+	}
+	// every method applied to a datetime item (only .type(), .size() in lax mode and .string() accept one)
+	for _, dt := range []struct{ text, op string }{{"2015-08-02", "date"}, {"12:34:56", "time"}, {"12:34:56+05:30", "time_tz"},
+		{"2015-08-02T12:34:56", "timestamp"}, {"2015-08-02T12:34:56Z", "timestamp_tz"}, {"2015-08-02T12:34:56.5", "datetime"}} {
+		head, vars := operand(slot{V: wire.StrV(dt.text)}, "a")
+		chain := append(append([]wire.Node{}, head...), wire.Node{K: "dt", Op: dt.op})
+		for _, m := range append(append([]string{}, convMethods...), "type", "size", "keyvalue") {
+			for _, lax := range []bool{true, false} {
+				u.addCase(wire.Path{Lax: lax, Chain: append(append([]wire.Node{}, chain...), methodNode(m))}, wire.Null(), vars)
+			}
+		}
+		u.addCase(wire.Path{Lax: true, Chain: append(append([]wire.Node{}, chain...), decimalNode(2, 5, 1))}, wire.Null(), vars)
+		// and over an array of such strings (one size / type per element)
+		arr := wire.Arr(wire.StrV(dt.text), wire.StrV(dt.text))
+		for _, m := range []string{"size", "type", "string"} {
+			u.addCase(wire.Path{Lax: true, Chain: []wire.Node{{K: "root"}, {K: "anyarr"}, {K: "dt", Op: dt.op}, methodNode(m)}}, arr, nil)
+		}
 	}
 	// .decimal(p, s): every precision / scale pair on a subset of the grid
 	precs := []int64{1, 2, 3, 15, 1000, 1001, 0, -1, 2147483648}
